@@ -1,9 +1,9 @@
 package main
 
 import (
-	"encoding/json"
 	"bytes"
 	"context"
+	"encoding/json"
 	"fmt"
 	"io"
 	"net/http"
@@ -100,7 +100,39 @@ func newHostileServer() http.Handler {
 		return &common.Elements[*entT]{}, nil
 	})
 	restli.RegisterAction(s, segs, "a", func(ctx *restli.RequestContext, rp *rpT, p *entT) error { hit(); return nil })
+	// a resource with read-only / create-only annotations (wildcards included): the exclusion matcher sees every key of the
+	// body, also the patch operators and keys named like them
+	segs2 := []restli.ResourcePathSegment{restli.NewResourcePathSegment("r2", true)}
+	ro := restlicodec.NewPathSpec("x", "m/*/x", "m/*/y/z")
+	restli.RegisterCreate(s, segs2, ro, func(ctx *restli.RequestContext, rp *rpT, v *anyT, qp *qpT) (*common.CreatedEntity[int64], error) {
+		hit()
+		return &common.CreatedEntity[int64]{Id: 7}, nil
+	})
+	restli.RegisterUpdate(s, segs2, ro, func(ctx *restli.RequestContext, rp *rpT, v *anyT, qp *qpT) error { hit(); return nil })
+	restli.RegisterPartialUpdate(s, segs2, ro, func(ctx *restli.RequestContext, rp *rpT, v *anyT, qp *qpT) error { hit(); return nil })
 	return s.Handler()
+}
+
+// anyT reads whatever object it is given, entering every nested object and array (so that every key is seen in its scope)
+type anyT struct{}
+
+func (e *anyT) NewInstance() *anyT { return new(anyT) }
+func (e *anyT) MarshalRestLi(w restlicodec.Writer) error {
+	return w.WriteMap(func(func(string) restlicodec.Writer) error { return nil })
+}
+func (e *anyT) UnmarshalRestLi(r restlicodec.Reader) error {
+	var rd func(r restlicodec.Reader, depth int) error
+	rd = func(r restlicodec.Reader, depth int) error {
+		return r.ReadMap(func(r restlicodec.Reader, k string) error {
+			if depth < 4 {
+				if err := rd(r, depth+1); err == nil {
+					return nil
+				}
+			}
+			return r.Skip()
+		})
+	}
+	return rd(r, 0)
 }
 
 func serverProbe(h http.Handler, position, verb, target string, hdr map[string]string, body []byte, c *counters) {
@@ -271,6 +303,23 @@ func runHTTP(get func(string) *counters, segLen, bodyLen int) {
 		serverProbe(h, "tunnelled-body", "POST", "/r1/1", with(map[string]string{"X-HTTP-Method-Override": "PUT", "Content-Type": "multipart/mixed; boundary=b"}), []byte(mp), c)
 		serverProbe(h, "tunnelled-framing", "POST", "/r1/1", with(map[string]string{"X-HTTP-Method-Override": "PUT", "Content-Type": "multipart/mixed; boundary=b"}), []byte(s+mp[:len(mp)/2]), c)
 	})
+	// a complete, valid body followed by more bytes is not one JSON document
+	js := map[string]string{"Content-Type": "application/json"}
+	for _, tail := range []string{"}", "]", `{"x":2}`, "garbage", " x", "\n{", ",", "null", `"`, "\x00"} {
+		serverProbe(h, "body", "PUT", "/r1/1", with(js), []byte(`{"x":1}`+tail), c)
+		serverProbe(h, "body", "POST", "/r1", with(map[string]string{"Content-Type": "application/json", "X-RestLi-Method": "create"}), []byte(`{"x":1}`+tail), c)
+		serverProbe(h, "body", "POST", "/r1/1", with(map[string]string{"Content-Type": "application/json", "X-RestLi-Method": "partial_update"}), []byte(`{"patch":{"$set":{"x":1}}}`+tail), c)
+		serverProbe(h, "body", "POST", "/r1?action=a", with(map[string]string{"Content-Type": "application/json", "X-RestLi-Method": "action"}), []byte(`{"x":1}`+tail), c)
+		serverProbe(h, "body", "PUT", "/r1?ids=List(1)", with(map[string]string{"Content-Type": "application/json", "X-RestLi-Method": "batch_update"}), []byte(`{"entities":{"1":{"x":1}}}`+tail), c)
+	}
+	// bodies whose keys are patch operators (or look like them) at every depth, against the annotated resource
+	for _, bd := range []string{`{"m":{"$set":{"x":1}}}`, `{"m":{"$delete":["x"]}}`, `{"$set":{"m":{"k":{"x":1}}}}`, `{"$set":1}`, `{"$delete":{}}`, `{"m":{"$set":1}}`,
+		`{"m":{"k":{"$set":{"x":1}}}}`, `{"patch":{"$set":{"m":{"$set":{"y":1}}}}}`, `{"patch":{"m":{"$set":{"k":{"y":{"z":1}}}}}}`, `{"patch":{"m":{"$delete":["k"]}}}`,
+		`{"patch":{"$set":{}}}`, `{"patch":{"$delete":[]}}`, `{"patch":{"m":{"$set":{}}}}`, `{"m":{"$set":{"$set":{"$set":1}}}}`} {
+		serverProbe(h, "exclusion-keys", "POST", "/r2", with(map[string]string{"Content-Type": "application/json", "X-RestLi-Method": "create"}), []byte(bd), c)
+		serverProbe(h, "exclusion-keys", "PUT", "/r2/1", with(js), []byte(bd), c)
+		serverProbe(h, "exclusion-keys", "POST", "/r2/1", with(map[string]string{"Content-Type": "application/json", "X-RestLi-Method": "partial_update"}), []byte(bd), c)
+	}
 	// tunnelled: well-formed multipart framing with parts missing, duplicated or of another type, under every override verb
 	part := func(ct, body string) string { return "--b\r\nContent-Type: " + ct + "\r\n\r\n" + body + "\r\n" }
 	qp, jp, xp := part("application/x-www-form-urlencoded", "p=1"), part("application/json", "{}"), part("text/plain", "x")
